@@ -207,7 +207,9 @@ func (r *Result) Write() error {
 	if err != nil {
 		return err
 	}
-	name := filepath.Join(dir, fmt.Sprintf("%s.%d.json", r.Property, i+r.FileOffset))
+	// result files of different jobs of one check never collide
+	job, _ := strconv.Atoi(os.Getenv("VERIF_JOB"))
+	name := filepath.Join(dir, fmt.Sprintf("%s.%d.json", r.Property, i+r.FileOffset+1000*job))
 	tmp := name + ".tmp"
 	if err := os.WriteFile(tmp, b, 0o644); err != nil {
 		return err
